@@ -170,7 +170,13 @@ def _execute(case, script, inputs, key_cols, expected, maybe, cols, bucket, emit
     bad = [c for c in forbid_cols if c in ds.components]
     p = ("structure", f"components {bad} must not be in this output mode") if bad else compare(ds, key_cols, expected, maybe, cols)
     if p:
-        emit({"v": "viol", "b": bucket, "mech": f"{case['fam']}/{p[0]}/{_mode_tag(case)}", "what": f"{script[:400]} :: {p[1]}", "case": case})
+        mech = f"{case['fam']}/{p[0]}/{_mode_tag(case)}"
+        if case["fam"] == "check_hierarchy" and p[0] == "wrong-ruleid":
+            import re
+            m = re.search(r"ruleid = '(\d+)'", p[1])
+            if m and 1 <= int(m.group(1)) <= len(case["rules"]):      # another rule's position: the numbering follows the engine's sort
+                mech = "check_hierarchy/unnamed-rules-numbered-in-dependency-order"
+        emit({"v": "viol", "b": bucket, "mech": mech, "what": f"{script[:400]} :: {p[1]}", "case": case})
     else:
         trivial = not expected and len(ds.data) == 0
         emit({"v": "held", "b": "trivial-empty" if trivial else bucket,
@@ -362,7 +368,14 @@ def run_chk_hier(case, emit):
             expected[key] = vals
     cols = ["imbalance", "errorcode", "errorlevel"] + (["bool_var"] if output != "invalid" else []) + (["Me_1"] if output != "all" else [])
     bucket = f"check_hierarchy/{output}{'/default' if case['output'] is None else ''}/{mode}{'/default' if case['mode'] is None else ''}/{'+'.join(sorted(feats)) or 'plain'}"
-    _execute(case, hr_script(case), {"DS_1": (HR_COMPS, case["rows"])}, ["Id_1", "Id_2", "ruleid"], expected, maybe, cols, bucket, emit,
+    key_cols = ["Id_1", "Id_2", "ruleid"]
+    if case["rules"][0]["name"] is None:
+        # unnamed rules: the left code items are distinct, so (Id_1, Id_2) identifies the rule; the default ruleid (position of the
+        # rule as written) is compared last, as a value, so that a numbering defect does not hide the other columns
+        expected = {k[:2]: dict(v, ruleid=k[2]) for k, v in expected.items()}
+        maybe = {k[:2] for k in maybe}
+        key_cols, cols = ["Id_1", "Id_2"], cols + ["ruleid"]
+    _execute(case, hr_script(case), {"DS_1": (HR_COMPS, case["rows"])}, key_cols, expected, maybe, cols, bucket, emit,
              forbid_cols=(["bool_var"] if output == "invalid" else []) + (["Me_1"] if output == "all" else []))
 
 
